@@ -811,7 +811,7 @@ func replay(c *harness.Ctx, e *engine, v *harness.Violation) {
 		os.Exit(2)
 	}
 	var b Builder
-	for _, x := range builders(c.Quick()) {
+	for _, x := range builders(false) { // replays always use the full (thorough) alphabets
 		if x.Name() == cs.B {
 			b = x
 		}
